@@ -241,6 +241,21 @@ class WebSocket(object):
             closing.
 
         """
+        if not isinstance(reason, (bytes, six.text_type)):
+            raise TypeError('reason argument must be str or bytes')
+        if code is not None:
+            if not isinstance(code, six.integer_types):
+                raise TypeError('code argument must be an int (or None)')
+            if not 0 <= code <= 0xffff:
+                raise ValueError('code argument must be in the range 0..65535')
+            _reason = (
+                reason
+                if isinstance(reason, bytes) else
+                reason.encode('utf-8', errors='replace')
+            )
+            if len(_reason) > 123:
+                # Control frames are limited to 125 bytes (2 for the code)
+                raise ValueError('reason should be <= 123 bytes (encoded)')
         if self.is_closed:
             log.debug('%r already closed', self)
         else:
